@@ -505,6 +505,10 @@ def run_mutants(muts, units, seed):
             if s.count(mu['find']) < 1:
                 return {'name': mu['name'], 'killed': False, 'note': 'anchor text not found (stale mutant)'}
             s2 = s.replace(mu['find'], mu['replace'], 1)
+            if mu.get('find2'):
+                if s2.count(mu['find2']) < 1:
+                    return {'name': mu['name'], 'killed': False, 'note': 'anchor text 2 not found (stale mutant)'}
+                s2 = s2.replace(mu['find2'], mu['replace2'], 1)
             open(p, 'w').write(s2)
             killed = False
             hit = []
